@@ -61,6 +61,36 @@ mod verif_kani {
         core::mem::forget(args);
     }
 
+    // libm-backed methods (tanf, asinf, acosf, atanf, atan2f, hypotf are foreign functions Kani does not model) are replaced by
+    // an arbitrary f32 result: an over-approximation, sound for "never panics"
+    fn any1(_x: f32) -> f32 {
+        kani::any()
+    }
+    fn any2(_x: f32, _y: f32) -> f32 {
+        kani::any()
+    }
+    macro_rules! fn_total_libm {
+        ($name:ident, $f:expr) => {
+            #[kani::proof]
+            #[kani::unwind(6)]
+            #[kani::stub(alloc::fmt::format, fmt_stub)]
+            #[kani::stub(f32::tan, any1)]
+            #[kani::stub(f32::asin, any1)]
+            #[kani::stub(f32::acos, any1)]
+            #[kani::stub(f32::atan, any1)]
+            #[kani::stub(f32::atan2, any2)]
+            #[kani::stub(f32::hypot, any2)]
+            fn $name() {
+                total($f)
+            }
+        };
+    }
+    fn_total_libm!(k_fn_total3_tan, Function::Tan);
+    fn_total_libm!(k_fn_total3_asin, Function::Asin);
+    fn_total_libm!(k_fn_total3_acos, Function::Acos);
+    fn_total_libm!(k_fn_total3_atan, Function::Atan);
+    fn_total_libm!(k_fn_total3_r2p, Function::Rect2Polar);
+
     macro_rules! fn_total {
         ($name:ident, $f:expr) => {
             #[kani::proof]
